@@ -37,8 +37,42 @@ def random_alignment(seqs, seed, extra_cols, gap_rows=None):
     return rows
 
 
+def perturb_balanced(rows, seed):
+    """Differences that leave simple per-row summaries unchanged (length, composition, position-weighted letter sums such as
+    the GCG checksum): in one row, one residue x moves one column to the right into a gap and another x moves one column
+    to the left into a gap; or a residue moves across a gap run by exactly 57 columns. None when no row offers that."""
+    rnd = random.Random(seed)
+    order = list(range(len(rows)))
+    rnd.shuffle(order)
+    for ri in order:
+        r = list(rows[ri])
+        right = [i for i in range(len(r) - 1) if r[i] != "-" and r[i + 1] == "-"]
+        left = [i for i in range(1, len(r)) if r[i] != "-" and r[i - 1] == "-"]
+        rnd.shuffle(right)
+        for i in right:
+            cand = [j for j in left if r[j] == r[i] and abs(j - i) > 2]
+            if cand:
+                j = rnd.choice(cand)
+                r[i + 1], r[i] = r[i], "-"
+                r[j - 1], r[j] = r[j], "-"
+                out = list(rows)
+                out[ri] = "".join(r)
+                return out
+        for i in range(len(r)):
+            if r[i] != "-" and i + 57 < len(r) and all(c == "-" for c in r[i + 1:i + 58]):
+                r[i + 57], r[i] = r[i], "-"
+                out = list(rows)
+                out[ri] = "".join(r)
+                return out
+    return None
+
+
 def perturb(rows, seed):
     rnd = random.Random(seed)
+    if seed % 3 == 0:
+        b = perturb_balanced(rows, seed)
+        if b is not None:
+            return b
     rows = [list(r) for r in rows]
     for _ in range(rnd.randint(1, 6)):
         r = rnd.choice(rows)
